@@ -39,6 +39,7 @@ func isCallSuffix(v ssa.Value, suffix string) (*ssa.Call, bool) {
 }
 
 func runC02(ctx *core.Ctx) {
+	c02Round6(ctx)
 	ctx.Trusted = append(ctx.Trusted, "go/types, go/ssa", "os.Expand calls its mapping function once per reference and does not rescan the result; os/exec passes Cmd.Env to the child")
 	p := ctx.P
 	ctx.Rule("N13", "the lookup map is rebuilt from the whole list: each MapUpdate of envMap in setup takes its key and value from element i of TestScript.env, i counting from 0 to len", 1)
